@@ -254,7 +254,7 @@ impl Runner {
                         None => {
                             // the call does not return: report and stop (the worker is stuck)
                             let mut e = base("hang", &key);
-                            e.insert("k".into(), json!(format!("{:?}", op.k)));
+                            e.insert("k".into(), json!(f.key_of(op.k)));
                             e.insert("sts".into(), Value::Object(cur.clone()));
                             out.push(Value::Object(e));
                             self.hung.set(true);
@@ -262,7 +262,7 @@ impl Runner {
                         }
                         _ => panic!("protocol"),
                     };
-                    let kstr = format!("{:?}", op.k);
+                    let kstr = f.key_of(op.k);
                     let panicked = r.panic.is_some();
                     // --- get sub-event
                     let mut g = base("get", &key);
@@ -305,7 +305,7 @@ impl Runner {
                     if r.executed {
                         let mut e = base("fin", &key);
                         e.insert("t".into(), json!(format!("t{}", t)));
-                        e.insert("k".into(), json!(format!("{:?}", op.k)));
+                        e.insert("k".into(), json!(f.key_of(op.k)));
                         e.insert("v".into(), json!(r.body_ret));
                         let est = r.ret.as_ref().map(|o| o.est).unwrap_or(size);
                         e.insert("size".into(), json!(if mem { est } else { 1 }));
@@ -354,7 +354,7 @@ impl Runner {
                     };
                     let f = self.fixtures.get(&fname).expect("fixture");
                     let key = f.name.clone();
-                    let kstr = format!("{:?}", kk);
+                    let kstr = f.key_of(kk);
                     let mem = f.cfg.maxmem != 0;
                     let free = |keys: &[String]| -> bool {
                         fx.iter().filter(|g| g.kind != "thread").all(|g| {
